@@ -84,6 +84,7 @@ pub fn run(ctx: &mut Ctx, replay: Option<&str>) {
     // carries exactly 1 + k disclosures and verifies to exactly those elements / members
     if replay.is_none() {
         let now = now();
+        set_patience(240);
         for (k, n) in (if ctx.tier == Tier::Quick { vec![24usize, 40, 130, 300] } else { vec![8, 24, 25, 40, 64, 65, 130, 300, 1000] }).into_iter().enumerate() {
             let mut r = ctx.rng.fork(6_000_000 + k as u64);
             let arr: Vec<Value> = (0..n).map(|i| if i % 9 == 2 { json!({"sensor": i}) } else if i % 13 == 5 { json!([i]) } else { json!(format!("e{}", i)) }).collect();
@@ -157,6 +158,7 @@ pub fn run(ctx: &mut Ctx, replay: Option<&str>) {
     // one credential with a very large number of disclosures, everything selected: every issued disclosure comes back exactly
     // once (whatever the holder keys its bookkeeping on meets its rare coincidences only at this scale)
     if replay.is_none() {
+        set_patience(240);
         let n = ctx.tier.pick(200_000, 600_000);
         let claims = json!({"iss": "https://issuer.example", "exp": now() + 100000, "list": (0..n).map(|i| json!(i % 7)).collect::<Vec<_>>()});
         let a = IssueArgs { claims: claims.clone(), strategy: Strategy::All, holder: None, decoy: false, fmt: Fmt::Compact, key: crate::keys::KeyId::Hmac1, alg: Some("HS256".into()), queue: None };
@@ -184,6 +186,7 @@ pub fn run(ctx: &mut Ctx, replay: Option<&str>) {
                 None => ctx.violation("oracle", "present", "everything selected of a huge credential: no presentation", case, h.calls.first().map(|c| c.out.describe()).unwrap_or(h.new.describe()), json!("Ok")),
             }
         }
+        set_patience(0);
     }
     // whatever the seed draws: some flows with a bound holder key whose own call asks for NO key binding, presented from a holder
     // that has just made a key-bound presentation (both formats)
